@@ -554,6 +554,16 @@ func init() {
 		return iface{}
 	}
 
+	// ---- math/rand (when not replaced by a seam): a fixed draw; randomness is never the subject here ----
+	intrinsics["math/rand.Int63"] = func(fr *frame, a []value) value { return cint(0x1234567) }
+	intrinsics["math/rand.Uint32"] = func(fr *frame, a []value) value { return cint(0x89abcdef) }
+	intrinsics["math/rand.Intn"] = func(fr *frame, a []value) value { return cint(uint64(asInt64(a[0])) / 2) }
+	intrinsics["math/rand.Seed"] = ret0
+
+	// ---- the AF_PACKET socket wrapper of /repo (environment: a socket cannot be opened here) ----
+	intrinsics["(*github.com/v-byte-cpu/sx/pkg/packet/afpacket.Source).SetBPFFilter"] = func(fr *frame, a []value) value { return iface{} }
+	intrinsics["(*github.com/v-byte-cpu/sx/pkg/packet/afpacket.Source).Close"] = ret0
+
 	// ---- easyjson unsafe casts ----
 	intrinsics["github.com/mailru/easyjson/jlexer.bytesToStr"] = func(fr *frame, a []value) value {
 		return bytesToString(a[0].([]value))
